@@ -97,7 +97,8 @@ def str_values():
     no_nul = T.a_text(0, 8).map(lambda s: s.replace('\x00', '\x01'))
     return st.one_of(
         no_nul, no_nul,
-        st.sampled_from(['', ' ', 'a', 'A', 'abc', 'ABC', 'a b', '12', 'x1',
+        st.sampled_from(['aa', 'abba', 'bc', '11', 'ac', 'abab',
+                         '', ' ', 'a', 'A', 'abc', 'ABC', 'a b', '12', 'x1',
                          'NA', 'null', 'None', 'nan', 'true', 'é', '中文',
                          "o'k", '"q"', 'back\\slash', 'a,b', 'tab\there',
                          'new\nline', '-', '^', ']', '^-', '😀']),
